@@ -44,6 +44,8 @@ func main() {
 			dumpSQL(prog, true)
 		case "states":
 			dumpStates(prog)
+		case "loop":
+			dumpLoop(prog)
 		}
 		return
 	}
